@@ -85,6 +85,16 @@ def nodeCall (toks : List String) : Option (NetM String) :=
   | ["get", "node_address"] => some (do return toString (← getNode).a.addr)
   | ["get", "parent"] => some (do return toString (← getNode).a.parent)
   | ["get", "fragmentation"] => some (do return sBool (← getNode).fragEnabled)
+  | ["get", "node_id"] => some (do return toString (← getNode).nodeId)
+  | ["get", "allow_children"] => some (do return sBool (← getNode).parenthood)
+  -- mesh classes: `node_id = v` gives the lease back first (`release_address()`), then `_id = v & 0xFF`
+  | ["set", "node_id", v] => do
+    let v ← parseInt v
+    some (do
+      if (← getNode).a.addr ≠ NETWORK_DEFAULT_ADDR then
+        let _ ← meshRelease
+      modNode fun nd => { nd with nodeId := maskInt v 0xFF }
+      return "ok")
   | ["get", "multicast_level"] => some (do return toString (← getNode).a.netLvl)
   | ["get", "multicast_relay"] => some (do let n ← getNode; return sBool (n.cfg.allowMulticast && n.relayEnabled))
   | ["nsend", to, ty, msg] => do
